@@ -256,6 +256,55 @@ def charSeq (start end_ : Nat) (inc : Int) : List Nat :=
   if start ≤ end_ then ascChars start end_ (stepOf inc)
   else start :: descChars start end_ (stepU32 (stepOf inc))
 
+/-! ## `&` in completion filters (`replace_unescaped_ampersands`, brush-core/src/completion.rs)
+
+Rust strings are addressed by *byte* offsets, and `String::replace_range` panics when an end of the
+range is past the end or not on a character boundary.  Strings are modelled as `List Char`; a byte
+offset is valid exactly when it is the UTF-8 length of a prefix. -/
+
+def utf8Len (s : Str) : Nat := (s.map Char.utf8Size).sum
+
+/-- split `s` at byte offset `i`; `none` when `i` is past the end or inside a character -/
+def splitAtByte : Str → Nat → Option (Str × Str)
+  | s, 0 => some ([], s)
+  | [], _ + 1 => none
+  | c :: cs, i + 1 =>
+    if c.utf8Size ≤ i + 1 then (splitAtByte cs (i + 1 - c.utf8Size)).map (fun (a, b) => (c :: a, b)) else none
+
+/-- `s.replace_range(i..=i, r)`: both `i` and `i + 1` must be character boundaries inside `s` -/
+def replaceRange1 (s : Str) (i : Nat) (r : Str) : Ck Str :=
+  match splitAtByte s i with
+  | none => .error .sliceRange
+  | some (_, []) => .error .sliceRange
+  | some (pre, c :: post) => if c.utf8Size = 1 then .ok (pre ++ r ++ post) else .error .sliceRange
+
+/-- the first loop: byte offsets of the `&` that are not escaped by a backslash
+(`off` = bytes already passed, `esc` = the previous character was an unescaped backslash) -/
+def ampOffsets : Str → Nat → Bool → List Nat
+  | [], _, _ => []
+  | c :: cs, off, esc =>
+    let rest := ampOffsets cs (off + c.utf8Size) (!esc && c == '\\')
+    if !esc && c == '&' then off :: rest else rest
+
+/-- the second loop: `for i in insertion_points.iter().rev() { result.replace_range(*i..=*i, replacement) }`
+— the offsets were taken from the original pattern and are applied to the copy being modified, last first -/
+def applyRev : List Nat → Str → Str → Ck Str
+  | [], s, _ => .ok s
+  | i :: is, s, r =>
+    match applyRev is s r with
+    | .ok s' => replaceRange1 s' i r
+    | .error e => .error e
+
+def replaceAmpersands (pattern replacement : Str) : Ck Str :=
+  applyRev (ampOffsets pattern 0 false) pattern replacement
+
+/-- what the function is for: every unescaped `&` stands for the word being completed -/
+def substAmp : Str → Bool → Str → Str
+  | [], _, _ => []
+  | c :: cs, esc, r =>
+    let rest := substAmp cs (!esc && c == '\\') r
+    if !esc && c == '&' then r ++ rest else c :: rest
+
 /-! ## `history N` -/
 
 /-- `display_history`: `item_count.saturating_sub(max_entries.unwrap_or(item_count))` -/
